@@ -182,8 +182,20 @@ def audit_table(table, name='table'):
             e = sorted(expected.get(k, []))
             a = sorted(actual.get(k, []))
             if e != a:
-                problems.append(f'{name}.{idx_name}[{k!r}]: index has {len(a)} object(s), scan finds {len(e)}'
-                                f'{" (different objects)" if len(a) == len(e) else ""}')
+                byid = {id(o): o for o in objs}
+                for v_ in dict.values(idx):
+                    for o in v_:
+                        byid.setdefault(id(o), o)
+
+                def _nm(i):
+                    o = byid.get(i)
+                    return getattr(o, 'Handle', None) or getattr(o, 'DescriptorHandle', None) or getattr(o, 'name', '?')
+                only_scan = [_nm(i) for i in e if i not in a][:4]
+                only_idx = [_nm(i) for i in a if i not in e][:4]
+                kk = getattr(k, 'text', k)
+                problems.append(f'{name}.{idx_name}[{kk!r}]: index has {len(a)} object(s), scan finds {len(e)}'
+                                f'{" (different objects)" if len(a) == len(e) else ""}'
+                                f' [only in scan: {only_scan}; only in index: {only_idx}]')
                 if len(problems) > 8:
                     return problems
     stale = set(table._object_ids) - ids
